@@ -80,12 +80,15 @@ pub fn gen_reader_benign(rng: &mut Rng, len: usize) -> ReaderCfg {
         err: None,
         early_eof: None,
         eintr_at_eof: if rng.chance(1, 6) { rng.range(1, 3) as u8 } else { 0 },
+        err_after_eof: None,
     }
 }
 
 /// Adds one destructive stream fault to a reader.
 pub fn add_reader_fault(rng: &mut Rng, cfg: &mut ReaderCfg, len: usize, hot: &[usize]) {
-    if rng.chance(2, 3) {
+    if rng.chance(1, 8) {
+        cfg.err_after_eof = Some(*rng.pick(&READ_ERR_KINDS));
+    } else if rng.chance(2, 3) {
         let at = if rng.chance(3, 4) {
             At::Byte(hot_offset(rng, len, hot) as u32)
         } else if rng.chance(1, 2) {
@@ -158,7 +161,8 @@ pub fn gen_disk_fault(rng: &mut Rng, len: usize, hot: &[usize], spans: &[(usize,
         30..=54 => DiskFault::BitFlip { byte: hot_offset(rng, len.saturating_sub(1), hot) as u32, bit: rng.below(8) as u8 },
         55..=64 => DiskFault::ZeroBlock { at, len: blen },
         65..=76 => DiskFault::LostBlock { at, len: blen },
-        77..=88 => DiskFault::DupBlock { at, len: blen },
+        77..=86 => DiskFault::DupBlock { at, len: blen },
+        87..=91 => DiskFault::CopyBlock { from: hot_offset(rng, len.saturating_sub(1), hot) as u32, to: at, len: blen },
         _ => DiskFault::GarbageBlock { at, len: blen.min(64), seed: rng.u64() },
     }
 }
